@@ -86,6 +86,9 @@ def run(ctx):
         cval = ba2int(bw.calculate_checksum(be.copy()))
         others = [cval ^ 1, cval ^ (1 << (w - 1)), cval + (1 << w), cval | (1 << (w + 5)), cval + (1 << 40)] + wrongs(cval, w)
         verify_same = bool(bw.verify_checksum(be.copy(), cval)) and bool(tb.verify_checksum(be.copy(), cval))
+        if len(obs) % 2:
+            # "verification accepts exactly the computed value": every other time the value is handed over as computed (a bitarray)
+            verify_same = bool(bw.verify_checksum(be.copy(), bw.calculate_checksum(be.copy()))) and bool(tb.verify_checksum(be.copy(), tb.calculate_checksum(be.copy())))
         verify_other = any(bool(c.verify_checksum(be.copy(), x)) for c in (bw, tb) for x in others)
         obs.append({"w": w, "n": len(bits), "bits": pack(bits), "verify_same": verify_same, "verify_other": verify_other,
                     "bitwise": pair(ba2int(bw.calculate_checksum(be.copy()))), "table": pair(ba2int(tb.calculate_checksum(be.copy()))),
